@@ -1,6 +1,7 @@
 package accessory
 
 import (
+	"bytes"
 	"crypto/md5"
 	"encoding/json"
 	"fmt"
@@ -95,8 +96,12 @@ func (m *Container) ContentHash() []byte {
 		log.Info.Panic(err)
 	}
 
+	// Numbers stay as they are written: an accessory id (a 64 bit number) or a
+	// bound does not fit into a float in general.
 	val := map[string]interface{}{}
-	if err := json.Unmarshal(b, &val); err != nil {
+	decoder := json.NewDecoder(bytes.NewReader(b))
+	decoder.UseNumber()
+	if err := decoder.Decode(&val); err != nil {
 		log.Info.Panic(err)
 	}
 
